@@ -40,7 +40,8 @@ TRUSTED_BASE = [
     "numpy/scipy numerics are NOT trusted and NOT modelled: their integer/boolean outputs are compared per input with certified exact values",
     "the certificate finders (harness/gen/c17_exact.py: integer echelon factorisation, exact Fraction simplex) are untrusted; only the Coq checkers are",
 ]
-ASSUMPTIONS = ["species labels, rule labels and edge ids are printable ASCII strings (Python str order = code point order)",
+ASSUMPTIONS = ["species labels, rule labels and edge ids are printable ASCII strings (Python str order = code point order); rule labels and edge ids "
+               "non-empty (add_rxn replaces an empty rule by its default); species labels may be empty",
                "network given as CRNHyperGraph (or its hypergraph_to_bipartite export); edge ids unique, sides are dicts with positive integer counts",
                "scipy is installed (the LP branches are the ones analysed)"]
 TESTED_NOT_PROVED = [
@@ -136,11 +137,11 @@ def impl(case):
     return _impl_core(case, build(case))
 
 
-def _impl_core(case, H):
+def _impl_core(case, H, Xv=None):
     import warnings
     warnings.filterwarnings("ignore")
     from synkit.CRN.Props import stoich
-    Xv = view_of(case, H)
+    Xv = view_of(case, H) if Xv is None else Xv
     try:
         sp, rx, Sm, Sp = stoich.build_S_minus_plus(Xv)
     except ValueError:
@@ -158,20 +159,46 @@ def _impl_core(case, H):
     cons = stoich.is_conservative(Xv)
     flag, _w = stoich.compute_conservativity(Xv)
     consist = stoich.is_consistent(Xv)
+    # ---- every other public route to the same quantities (wrappers, facades, non-default tolerances, the sparse forms):
+    #      each must give the ONE answer; _one() turns a disagreement into an observable no model value equals
+    from synkit.CRN.Petri import semiflows
+    so2, eo2, mp = H.incidence_matrix(sparse=True)
+    dense_from_sparse = [[int(mp.get((s_, e_), 0)) for e_ in eo2] for s_ in so2]
+    hs = H.stoichiometric_matrix(sparse=False)
+    hs = hs[2] if isinstance(hs, tuple) else hs
+    L2, R2 = stoich.left_right_kernels(Xv)
+    L3, R3 = stoich.left_right_kernels(Xv, rtol=1e-10)
+    P, T = semiflows.find_p_semiflows(Xv), semiflows.find_t_semiflows(Xv, rtol=1e-9)
+    sm2 = stoich.StoichSummary.from_crn(Xv)
+    sm3 = stoich.StoichSummary.from_crn(Xv, conservativity_check=False, consistency_check=False)
+    sm4 = stoich.StoichSummary.from_crn(Xv, consistency_check=False)
+    td = sm.to_dict()
+    facade_ok = (sm3.is_conservative is None and sm3.is_consistent is None and sm4.is_consistent is None
+                 and sm.is_full_rank == (int(sm.rank) == min(m, n)) and sm.is_underdetermined == (int(sm.rank) < n)
+                 and td == dict(n_species=sm.n_species, n_reactions=sm.n_reactions, rank=sm.rank, dim_left_kernel=sm.dim_left_kernel,
+                                dim_right_kernel=sm.dim_right_kernel, is_conservative=sm.is_conservative, is_consistent=sm.is_consistent)
+                 and all(("= %s" % v) in str(sm) for v in (sm.n_species, sm.n_reactions, sm.rank)))
     # exact truth (certificates found and checked in exact integer arithmetic by the harness; the model re-checks the
     # same certificates with the proved Coq checkers, so these two slots tie the Python truth to the certified one)
     truth_c, truth_f = exact_truth(Si, m, n)
     return [0,
             _one(list(sp), list(sp2)), _one(list(rx), list(rx2)),
             _one(Si, _imat(S0)), _imat(Sm), _imat(Sp),
-            list(so), list(eo), _imat(mat),
-            True,
-            _one(int(rank), int(sm.rank)),
-            [_one(m, int(L.shape[0]), int(sm.n_species)), _one(int(L.shape[1]), int(sm.dim_left_kernel), len(laws))],
-            [_one(n, int(R.shape[0]), int(sm.n_reactions)), _one(int(R.shape[1]), int(sm.dim_right_kernel))],
+            _one(list(so), list(so2)), _one(list(eo), list(eo2)), _one(_imat(mat), dense_from_sparse, _imat(hs)),
+            bool(facade_ok),
+            _one(int(rank), int(sm.rank), int(stoich.stoichiometric_rank(Xv, tol=1e-8)), int(stoich.stoichiometric_rank(Xv, tol=1e-12)),
+                 int(sm2.rank), int(sm3.rank)),
+            [_one(m, int(L.shape[0]), int(sm.n_species), int(L2.shape[0]), int(P.shape[0]), int(sm2.n_species)),
+             _one(int(L.shape[1]), int(sm.dim_left_kernel), len(laws), int(L2.shape[1]), int(L3.shape[1]), int(P.shape[1]),
+                  int(sm2.dim_left_kernel), len(stoich.integer_conservation_laws(Xv, rtol=1e-10)),
+                  int(stoich.left_nullspace(Xv, rtol=1e-9).shape[1]))],
+            [_one(n, int(R.shape[0]), int(sm.n_reactions), int(R2.shape[0]), int(T.shape[0])),
+             _one(int(R.shape[1]), int(sm.dim_right_kernel), int(R2.shape[1]), int(R3.shape[1]), int(T.shape[1]),
+                  int(stoich.right_nullspace(Xv, rtol=1e-9).shape[1]),
+                  int(R.shape[1]) if bool(stoich.has_irreversible_futile_cycles(Xv)) == (int(R.shape[1]) > 0) else -1)],
             truth_c, truth_f,
-            _one(cons, flag, sm.is_conservative),
-            _opt(_one(consist, sm.is_consistent))]
+            _one(cons, flag, sm.is_conservative, sm2.is_conservative, sm4.is_conservative),
+            _opt(_one(consist, sm.is_consistent, sm2.is_consistent))]
 
 
 def exact_truth(Si, m, n):
@@ -381,7 +408,70 @@ def _touch_everything(H):
             pass
 
 
+def apply_graph_edit(Gv, op, ids):
+    """the same edits on a CALLER-SUPPLIED bipartite graph, in place (node and edge counts mostly unchanged: a memo keyed
+    by the graph object or by its sizes survives them).  ids: species label -> node, edge id -> node."""
+    k = op[0]
+    if k == "coef":
+        _, eid, side, sp, c = op
+        u, v = (ids["s"][sp], ids["r"][eid]) if side == "l" else (ids["r"][eid], ids["s"][sp])
+        Gv[u][v]["stoich"] = c
+    elif k == "replace":                # the incidences of one reaction node are rewritten (rule label too)
+        _, eid, rule, l, r = op
+        rn = ids["r"][eid]
+        for u, v in list(Gv.in_edges(rn)) + list(Gv.out_edges(rn)):
+            Gv.remove_edge(u, v)
+        Gv.nodes[rn]["label"] = rule
+        for sp, c in l + r:
+            if sp not in ids["s"]:
+                nid = ids["fresh"](sp)
+                Gv.add_node(nid, kind="species", label=sp, bipartite=0)
+                ids["s"][sp] = nid
+        for sp, c in l:
+            Gv.add_edge(ids["s"][sp], rn, stoich=c, role="reactant")
+        for sp, c in r:
+            Gv.add_edge(rn, ids["s"][sp], stoich=c, role="product")
+    elif k == "rmsp":                   # all incidences of a species removed, the node stays
+        sn = ids["s"][op[1]]
+        for u, v in list(Gv.in_edges(sn)) + list(Gv.out_edges(sn)):
+            Gv.remove_edge(u, v)
+    elif k == "relabel":                # species renamed in place (label attribute only; node id unchanged)
+        _, old, new = op
+        Gv.nodes[ids["s"][old]]["label"] = new
+        ids["s"][new] = ids["s"].pop(old)
+    else:
+        raise AssertionError(op)
+
+
+def _graph_history_setup(case):
+    from synkit.CRN.Hypergraph.conversion import hypergraph_to_bipartite
+    H0 = build(_state_case(case, 0))
+    integer = case.get("gview", "bip_int") == "bip_int"
+    Gv = hypergraph_to_bipartite(H0, integer_ids=integer)
+    ids = dict(s={d["label"]: u for u, d in Gv.nodes(data=True) if d.get("kind") == "species"}, r={})
+    rn = [u for u, d in Gv.nodes(data=True) if d.get("kind") == "reaction"]
+    for u, eid in zip(rn, sorted(H0.edges)):
+        ids["r"][eid] = u
+    cnt = [len(Gv)]
+
+    def fresh(sp):
+        cnt[0] += 1
+        return cnt[0] * 7 + 1000 if integer else "S:new:%s" % sp
+    ids["fresh"] = fresh
+    return Gv, ids
+
+
 def _impl_history(case):
+    if case.get("gview"):
+        Gv, ids = _graph_history_setup(case)
+        out = []
+        for k in range(len(case["states"])):
+            if k:
+                for op in case["edits"][k - 1]:
+                    apply_graph_edit(Gv, op, ids)
+            sub = _state_case(case, k)
+            out.append(_impl_core(dict(sub, view="given"), build(sub), Xv=Gv))
+        return out
     H = build(_state_case(case, 0))
     out = []
     for k in range(len(case["states"])):
@@ -396,6 +486,20 @@ def _impl_history(case):
 def _oracle_history(case):
     """every state of the edited object is judged like a fresh network (the reference is read off H.species / H.edges, the
     object's own primary data); the states the generator predicted must be the states the object reaches"""
+    if case.get("gview"):
+        # caller-supplied graph edited in place: judged against a fresh hypergraph of the predicted state
+        Gv, ids = _graph_history_setup(case)
+        fails = []
+        for k in range(len(case["states"])):
+            if k:
+                for op in case["edits"][k - 1]:
+                    apply_graph_edit(Gv, op, ids)
+            sub = _state_case(case, k)
+            for f in _oracle_core(dict(sub, view="given"), build(sub), Xv=Gv):
+                fails.append(dict(f, detail="state %d of the graph edited in place (%r): %s" % (k, case["edits"][k - 1] if k else None, f["detail"])))
+            if fails:
+                break
+        return fails[:4]
     H = build(_state_case(case, 0))
     fails = []
     for k in range(len(case["states"])):
@@ -418,13 +522,13 @@ def _oracle_history(case):
     return fails[:4]
 
 
-def _oracle_core(case, H):
+def _oracle_core(case, H, Xv=None):
     import warnings
     warnings.filterwarnings("ignore")
     import numpy as np
     from collections import Counter
     from synkit.CRN.Props import stoich
-    Xv = view_of(case, H)
+    Xv = view_of(case, H) if Xv is None else Xv
     fails = []
 
     def bad(clause, detail):
@@ -755,6 +859,95 @@ def edit_history(rng, kind="edit-history"):
     return dict(kind=kind, states=states, edits=edits, rxns=states[-1]["rxns"], iso=states[-1]["iso"], view="hyper")
 
 
+def graph_edit_history(rng, kind="graph-edit-history"):
+    """ONE caller-supplied bipartite graph (integer or string node ids) analysed, edited IN PLACE, analysed again: coefficient
+    attributes changed, the incidences of a reaction node rewritten, all incidences of a species removed (node stays), a species
+    label changed — node and (mostly) edge counts unchanged.  Orphaned species stay in the graph as isolated nodes."""
+    import copy
+    base = G.random_net(rng, max_s=5, max_r=4, maxc=3)
+    st = dict(rxns=copy.deepcopy(base["rxns"]), iso=list(base["iso"]))
+    states, edits = [copy.deepcopy(st)], []
+
+    def species():
+        return sorted({x for _, _, l, r in st["rxns"] for x, _ in l + r} | set(st["iso"]))
+    for _ in range(rng.randint(1, 3)):
+        before = set(species())
+        rx = st["rxns"]
+        z = rng.random()
+        op = None
+        if z < 0.4:
+            i = rng.randrange(len(rx))
+            sd = "l" if (rx[i][2] and rng.random() < 0.5) or not rx[i][3] else "r"
+            lst = rx[i][2] if sd == "l" else rx[i][3]
+            if lst:
+                j = rng.randrange(len(lst))
+                c = rng.choice([x for x in (1, 2, 3, 4, 12) if x != lst[j][1]])
+                op = ["coef", rx[i][0], sd, lst[j][0], c]
+                lst[j][1] = c
+        elif z < 0.7:
+            i = rng.randrange(len(rx))
+            pool = species() + ["Q9"]
+            l = [[x, rng.randint(1, 3)] for x in rng.sample(pool, rng.choice([0, 1, 1, 2]))]
+            r = [[x, rng.randint(1, 3)] for x in rng.sample(pool, rng.choice([0, 1, 1, 2]))]
+            if (l or r) and not ({x for x, _ in l} & {x for x, _ in r}):
+                rule = rx[i][1] if rng.random() < 0.6 else rng.choice(G.RULES)
+                op = ["replace", rx[i][0], rule, l, r]
+                rx[i] = [rx[i][0], rule, l, r]
+        elif z < 0.85:
+            occ = sorted({x for _, _, l, r in rx for x, _ in l + r})
+            cand = [x for x in occ if all(any(y != x for y, _ in l + r) for _, _, l, r in rx if any(y == x for y, _ in l + r))]
+            if cand:
+                x = rng.choice(cand)
+                op = ["rmsp", x]
+                for t in rx:
+                    t[2] = [p for p in t[2] if p[0] != x]
+                    t[3] = [p for p in t[3] if p[0] != x]
+        else:
+            sp = species()
+            old = rng.choice(sp)
+            new = rng.choice([x for x in ("A0", "Zz", "B", "a", "E1") if x not in sp] or ["Nn"])
+            op = ["relabel", old, new]
+            for t in rx:
+                for lst in (t[2], t[3]):
+                    for p in lst:
+                        if p[0] == old:
+                            p[0] = new
+            st["iso"] = [new if x == old else x for x in st["iso"]]
+            before = {new if x == old else x for x in before}
+        if op is None:
+            continue
+        occ = {x for _, _, l, r in st["rxns"] for x, _ in l + r}
+        st["iso"] = sorted((before | set(st["iso"])) - occ)          # orphans stay as isolated nodes
+        edits.append([copy.deepcopy(op)])
+        states.append(copy.deepcopy(st))
+    if len(states) < 2:
+        return None
+    return dict(kind=kind, states=states, edits=edits, rxns=states[-1]["rxns"], iso=states[-1]["iso"], view="hyper",
+                gview=rng.choice(["bip_int", "bip_str"]))
+
+
+DEGENERATE_LABELS = [["", "B"], ["0", "00", "000"], [" ", "A", "  "], ["False", "None", "nan"], ["-1", "1e3", "+2"], ["A B", "A+B", "A>>B"],
+                     ["S:A", "R:r_1", "A"], ["__tmp__", "r_1", "q"], ["a", "A", "Aa"]]
+
+
+def degenerate_nets(rng):
+    """falsy / odd labels, huge coefficients, single species, one-sided and repeated reactions, identical reactions under two rules"""
+    out = []
+    for k, names in enumerate(DEGENERATE_LABELS):
+        a, b = names[0], names[1]
+        c = names[2] if len(names) > 2 else names[0]
+        rx = [["r_1", "r", [[a, 1]], [[b, 2]]], ["r_2", "r", [[b, 1]], []], ["q_1", "q", [], [[c, rng.choice([1, 100, 1000])]]]]
+        if k % 2:
+            rx.append(["r_10", "r", [[a, 1]], [[b, 2]]])           # the first reaction again under another id
+        out.append(dict(kind="degenerate-labels", rxns=rx, iso=[], view=["hyper", "bip_int", "bip_str", "bip_perm", "bip_sperm"][k % 5],
+                        perm_seed=rng.randrange(10 ** 6)))
+    out.append(dict(kind="degenerate-labels", rxns=[["r_1", "r", [["A", 1]], []]], iso=[], view="hyper"))
+    out.append(dict(kind="degenerate-labels", rxns=[["r_1", "r", [], [["A", 1000000]]]], iso=["", "B"], view="bip_int"))
+    # (an empty rule label is replaced by the default rule "r" in add_rxn — outside the stated domain; edge ids "0" / " " are kept)
+    out.append(dict(kind="degenerate-labels", rxns=[["0", "q", [["A", 1]], [["B", 1]]], [" ", "q", [["B", 1]], [["A", 1]]]], iso=[], view="bip_str"))
+    return out
+
+
 def _sweep_sample(count, rng, kind):
     """random sample of the coefficient sweep (sets of 1..2 reactions, coefficients in {0,1,2}, 3 species) without
     enumerating the orbit representatives (the thorough tier enumerates them all)."""
@@ -794,6 +987,13 @@ def gen_cases(tier, rng):
         if c is not None:
             cases.append(c)
             nh += 1
+    nh = 0
+    while nh < (40 if tier == "quick" else 400):
+        c = graph_edit_history(rng)
+        if c is not None:
+            cases.append(c)
+            nh += 1
+    cases += degenerate_nets(rng)
     if tier != "quick":
         # three-digit node ids / indices (one case: about 1.5 min of vm_compute)
         c101 = G.net_from_strings(["X%d >> X%d" % (i, i % 101 + 1) for i in range(1, 102)], "big", name="big/cycle-101")
